@@ -336,8 +336,12 @@ func checkAPIKey(r *http.Request) *AuthToken {
 	// Check if the provided API key exists.
 	token, ok := apiKeys[key]
 	if !ok {
+		keyHint := key
+		if len(keyHint) > 4 {
+			keyHint = keyHint[:4]
+		}
 		log.Tracer(r.Context()).Tracef(
-			"api: provided api key %s... is unknown", key[:4],
+			"api: provided api key %s... is unknown", keyHint,
 		)
 		return nil
 	}
